@@ -87,6 +87,11 @@ def run(chk: common.Check, tier: str):
     probes.append(("start: FSTRING_START OP FSTRING_END NEWLINE | NAME OP NAME NEWLINE | STRING NUMBER NEWLINE\n", [], [],
                    {"f'='\n": False, "f'+'\n": False, "f'->'\n": False, "a + b\n": True, "a -> b\n": True, "a b c\n": False,
                     "'s' 1\n": True, "s 1\n": False, "'s' x\n": False}))
+    # literals written with a string prefix: the CLOSING quote decides (r'while' is a hard keyword, u"until" a soft one)
+    probes.append(("start: NAME NEWLINE | SOFT_KEYWORD NUMBER NEWLINE | NUMBER hard soft NEWLINE\nhard: r'while' | NUMBER\n"
+                   "soft: u\"until\" | NUMBER\n", ["while"], ["until"],
+                   {"while\n": False, "until\n": True, "x\n": True, "until 1\n": True, "while 1\n": False, "x 1\n": False,
+                    "1 while until\n": True}))
     pres = rm.run_traced([{"grammar": g, "inputs": list(exp), "configs": ["q1"]} for g, _, _, exp in probes])
     for (g, kws, softs, exp), rj in zip(probes, pres):
         chk.count()
